@@ -13,6 +13,9 @@ package query
 //verif:harness VerifC01Headerless mode=bv tier=quick split=4
 
 import (
+	"io"
+	"strings"
+
 	"github.com/mithrandie/csvq/lib/parser"
 	"github.com/mithrandie/csvq/lib/value"
 )
@@ -324,12 +327,12 @@ var verifC01KindFile = []string{
 	"c1,c2\n1,a\n2,b\n3,c\n", "c1,c2\n1,z\n2,b\n", "c1,c2\n2,b\n", "c1,c2\n1,r\n2,b\n4,s\n", "c1,c2,c3\n1,a,d\n2,b,d\n",
 	"c1\n1\n2\n", "c1,cx\n1,a\n2,b\n", "c0,c00,c1,c2\n,,1,a\n,,2,b\n", "c1,c2\n1,a\n2,b\n11,a\n12,b\n",
 }
-var verifC01KindStmt [2][][]parser.Statement
-var verifC01KindSel, verifC01KindMore [2][]parser.Statement
+var verifC01KindStmt [3][][]parser.Statement
+var verifC01KindSel, verifC01KindMore [3][]parser.Statement
 var verifC01KindCommit, verifC01KindRollback, verifC01KindFail []parser.Statement
 
 func VerifC01KindsSetup() {
-	for ti, tn := range []string{"tt", "`k.csv`"} {
+	for ti, tn := range []string{"tt", "`k.csv`", "stdin"} {
 		for _, src := range verifC01KindSrc {
 			verifC01KindStmt[ti] = append(verifC01KindStmt[ti], verifParse(verifSubst(src, tn)))
 		}
@@ -338,7 +341,7 @@ func VerifC01KindsSetup() {
 	}
 	verifC01KindCommit = verifParse("commit")
 	verifC01KindRollback = verifParse("rollback")
-	verifC01KindFail = verifParse("select 1 / 0")
+	verifC01KindFail = verifParse("var @failing := 1 / 0") // not a SELECT without FROM: with piped input that one reads STDIN, and fails only if STDIN has a record
 }
 
 func verifSubst(src, name string) string {
@@ -387,10 +390,14 @@ func VerifC01ChangeKinds() {
 	tx.Flags.Quiet = true
 	// the statements of the procedure are handed over one by one: no automatic COMMIT after each
 	proc := NewProcessor(tx)
-	ti := verifChoice("file", 2)
+	ti := verifChoice("file", 3) // 0: a temporary table, 1: a table file, 2: the table read from standard input
 	if ti == 0 {
 		verifTempTable(proc.ReferenceScope, "tt", []string{"c1", "c2"}, [][]value.Primary{
 			{value.NewInteger(1), value.NewString("a")}, {value.NewInteger(2), value.NewString("b")}})
+	}
+	if ti == 2 {
+		tx.Session.stdin = io.NopCloser(strings.NewReader(old))
+		tx.Session.CanReadStdin = true
 	}
 	kind := verifChoice("kind", len(verifC01KindSrc))
 	pattern := verifChoice("pattern", 3)
@@ -431,7 +438,7 @@ func VerifC01ChangeKinds() {
 }
 
 func wantFileOr(ti int, wantFile, old string) string {
-	if ti == 0 {
+	if ti != 1 {
 		return old
 	}
 	return wantFile
